@@ -28,6 +28,14 @@ def units(cfg):
 # data shapes: (n, branch pattern, extra columns)
 def pressures(n, pattern):
     """Pressure sequence of n points for a branch pattern."""
+    if pattern == 'ads-from-zero':          # the (0, 0) origin as first point
+        return [0.0] + [0.1 + 0.15 * i for i in range(n - 1)]
+    if pattern == 'hysteresis-to-zero':     # desorption back to exact vacuum; a zero in the middle of the table
+        up = max(2, (n + 1) // 2)
+        a = [0.0] + [0.1 + 0.2 * i for i in range(up - 1)]
+        d = [a[-1] * (1 - (i + 1) / (n - up)) for i in range(n - up)]
+        d[-1] = 0.0
+        return a + d
     if pattern in ('all-ads', 'all-des', 'user-alternating'):
         base = [0.1 + 0.15 * i for i in range(n)]
         if pattern == 'all-des':
@@ -43,8 +51,11 @@ def pressures(n, pattern):
 
 
 def branch_marks(n, pattern, p):
-    if pattern == 'all-ads':
+    if pattern in ('all-ads', 'ads-from-zero'):
         return [0] * n
+    if pattern == 'hysteresis-to-zero':
+        m = p.index(max(p))
+        return [0] * (m + 1) + [1] * (n - m - 1)
     if pattern == 'all-des':
         return [1] * n
     if pattern == 'guessable':
@@ -71,6 +82,11 @@ def guess_rule(p):
 def point_frame(n, pattern, extras, scale=1.0):
     p = pressures(n, pattern)
     l = [round((0.5 + 0.37 * i) * scale + 1.2345678e-5 * (i + 1), 8) for i in range(n)]
+    if pattern == 'ads-from-zero':
+        l[0] = 0.0
+    if pattern == 'hysteresis-to-zero':
+        m = p.index(max(p))
+        l = [round((0.37 * min(i, m) + 0.05 * max(0, i - m)) * scale + (1.2345678e-5 * (i + 1) if i else 0.0), 8) for i in range(n)]
     if pattern in ('guessable', 'user-ads-on-hysteresis'):
         m = p.index(max(p))
         l = [round((0.5 + 0.37 * min(i, m) + 0.05 * max(0, i - m)) * scale + 1.2345678e-5 * (i + 1), 8) for i in range(n)]
@@ -79,6 +95,10 @@ def point_frame(n, pattern, extras, scale=1.0):
         d['enthalpy'] = [round(40.0 - 1.5 * i, 3) for i in range(n)]
     if extras in ('text', 'both'):
         d['remark'] = [f'pt{i}' for i in range(n)]
+    if extras == 'text-numeric':            # labels that spell numbers stay labels
+        d['label'] = [f'{i + 1:03d}' for i in range(n)]
+    if extras == 'text-numeric-gaps':
+        d['label'] = [None if i % 3 == 1 else f'{i + 1:03d}' for i in range(n)]
     if extras == 'nan-partial':
         d['enthalpy'] = [float('nan') if i % 2 == 0 else round(40.0 - 1.5 * i, 3) for i in range(n)]
     if extras == 'nan-all':
@@ -90,6 +110,22 @@ def point_frame(n, pattern, extras, scale=1.0):
 DATA_SHAPES = [(n, pat, ex) for n in (1, 2, 4, 7) for pat in ('all-ads', 'all-des', 'guessable', 'user-alternating', 'user-ads-on-hysteresis')
                for ex in ('none', 'numeric', 'text', 'both', 'nan-partial', 'nan-all')
                if not (n < 3 and pat in ('guessable', 'user-ads-on-hysteresis')) and not (n == 1 and pat == 'user-alternating')]
+# structural additions (kept after the original product so that thinned enumerations stay what they were)
+ZERO_SHAPES = [(n, pat, ex) for n in (2, 4, 7) for pat in ('ads-from-zero', 'hysteresis-to-zero') for ex in ('none', 'numeric')
+               if not (n < 4 and pat == 'hysteresis-to-zero')]
+TEXTNUM_SHAPES = [(n, 'all-ads', ex) for n in (1, 4, 7) for ex in ('text-numeric', 'text-numeric-gaps')]
+
+
+MATERIAL_WITH_PROPS = {'name': 'gen-mat-conv', 'density': 2.25, 'molar_mass': 101.5}
+
+
+def mk_point_converted(cfg, shape, meta, scale=1.0):
+    """The same content as mk_point(cfg, ...) would carry labels for, but REACHED by permanent conversion from the default units."""
+    iso = mk_point(DEFAULT, shape, meta, scale, material=dict(MATERIAL_WITH_PROPS))
+    iso.convert(**{k: v for k, v in units(cfg).items() if k != 'temperature_unit'})
+    if cfg[6] != 'K':
+        iso.convert_temperature(cfg[6])
+    return iso
 
 
 def mk_point(cfg, shape, meta, scale=1.0, material='gen-mat'):
